@@ -26,6 +26,8 @@ RuleOf(tys, trs) ==
     [k |-> "fixed", t |-> [base EXCEPT !.off = @ + 1]],
     [k |-> "fixed", t |-> [base EXCEPT !.dst = 1 - @]],
     [k |-> "fixed", t |-> [base EXCEPT !.des = <<88, 89, 90>>]],
+    [k |-> "fixed", t |-> [base EXCEPT !.des = <<base.des[1], base.des[2], 90>>]],          \* differs in the last character only
+    [k |-> "fixed", t |-> [base EXCEPT !.des = <<90, base.des[2], base.des[3]>>]],
     [k |-> "fixed", t |-> [base EXCEPT !.des = <<>>]]})
 Init == vPh = 0 /\ vZa = <<>> /\ vty \in TypeLists /\ vlp \in LeapLists
 Next == /\ vPh = 0 /\ vPh' = 1 /\ UNCHANGED <<vty, vlp>>
